@@ -14,9 +14,6 @@ import (
 // Rules added after the second round of independently seeded changes.
 
 func init() {
-	register(&Rule{ID: "P-PAREN-CLOSES", Props: []string{"C17", "C01", "C10"}, Floor: 1,
-		Doc: "a parenthesised expression never leaves the parenthesis case as an open projection: when the inner node satisfies isProjectNode it is replaced by a freshly built node of a non-projecting type that wraps it (so a following selector applies to the projected array)",
-		Run: rulePParenCloses})
 	register(&Rule{ID: "E-NULL-IS-A-VALUE", Props: []string{"C02", "C08"}, Floor: 1,
 		Doc: "no value built-in (a helper with an error result) compares one of its JSON-value parameters with nil: null is an ordinary argument value that must go through the same type tests as every other value, never a marker for 'argument absent'",
 		Run: ruleENullIsAValue})
